@@ -100,8 +100,11 @@ def impl(case):
         pos = ds.get_positions()
         spn = np.asarray(sch.penalty_vectors)
         alg = KwikSortRandom()
-        where = [[int(alg._where_should_it_be(pos[p], pos[e], spn)) for e in range(ds.nb_elements)]
-                 for p in range(ds.nb_elements)]
+        try:
+            where = [[int(alg._where_should_it_be(pos[p], pos[e], spn)) for e in range(ds.nb_elements)]
+                     for p in range(ds.nb_elements)]
+        except (AttributeError, TypeError):
+            where = None   # private helper renamed / re-shaped: this white-box comparison is skipped
         return {"obs": obs, "runs": runs, "where": where}
     except Exception as exc:  # noqa: BLE001
         return {"err": "other:" + type(exc).__name__ + ":" + str(exc)[:200]}
@@ -126,7 +129,7 @@ def judge(case, out, answers):
     if "err" in out:
         return {"agree": False, "holds": False, "diff": out["err"], "nontrivial": False, "tags": tags + ["impl-error"]}
     diff = []
-    if answers[0] != out["where"]:
+    if out["where"] is not None and answers[0] != out["where"]:
         diff.append("_where_should_it_be: model %s impl %s" % (answers[0], out["where"]))
     holds = True
     coherent = False
